@@ -155,48 +155,68 @@ struct ctx
     return order_ok && next == n && b.eq(*c) && !b.ne(*c) && hash(b) == hash(*c);
   }
 
+  // the part of a `pair` line that depends on the first operand only
+  std::string pair_a(val const &a) const
+  {
+    vp const c{a.bnot()};
+    bool r1 = false, r2 = false, r3 = false;
+    // the same object on both sides
+    vp s1{a.clone()}; s1->or_assign(*s1, r1);
+    vp s2{a.clone()}; s2->and_assign(*s2, r2);
+    vp s3{a.clone()}; s3->xor_assign(*s3, r3);
+    vp const s4{a.bor(a)}, s5{a.band(a)}, s6{a.bxor(a)};
+    bool const self_ok = s4->eq(*s1) && s5->eq(*s2) && s6->eq(*s3) && r1 && r2 && r3;
+    bool const self_eq = a.eq(a) && !a.ne(a);
+    bool const self_sub = a.subset(a);
+    return "na=" + mw(*c) + " ha=" + std::to_string(hash(a)) + " hc=" + std::to_string(hash(*c)) + " self=" + ws(*s1) + "/" +
+           ws(*s2) + "/" + ws(*s3) + "/" + b01(self_eq) + b01(self_sub) + " canonc=" + b01(self_ok && is_canon(*c));
+  }
+
+  std::string pair_b(val const &a, ull A, ull B) const
+  {
+    vp const b{from_mask(B)};
+    std::vector<ull> const a0{a.words()};
+    std::vector<ull> const b0{b->words()};
+    vp const o{a.bor(*b)};
+    vp const n_{a.band(*b)};
+    vp const x{a.bxor(*b)};
+    // the assigning forms must agree with the binary ones and return their left operand
+    bool r1 = false, r2 = false, r3 = false;
+    vp o2{a.clone()}; o2->or_assign(*b, r1);
+    vp n2{a.clone()}; n2->and_assign(*b, r2);
+    vp x2{a.clone()}; x2->xor_assign(*b, r3);
+    bool const assign_ok = o2->eq(*o) && n2->eq(*n_) && x2->eq(*x) && r1 && r2 && r3;
+    bool const e = a.eq(*b);
+    bool const ne = a.ne(*b);
+    bool const sub = a.subset(*b);
+    std::string r = "or=" + mw(*o) + " and=" + mw(*n_) + " xor=" + mw(*x) + " sub=" + b01(sub) +
+                    " eq=" + b01(e) + " ne=" + b01(ne) + " hx=" + std::to_string(hash(*x)) + " canon=" +
+                    b01(assign_ok && is_canon(*o) && is_canon(*n_) && is_canon(*x));
+    // no observer or operator changed its operands
+    r += " pure=" + b01(a.words() == a0 && b->words() == b0 && a0 == from_mask(A)->words() && b0 == from_mask(B)->words());
+    return r;
+  }
+
   std::string pair_line(ull A, ull B) const
   {
     vp const a{from_mask(A)};
-    vp const b{from_mask(B)};
-    std::vector<ull> const a0{a->words()};
-    std::vector<ull> const b0{b->words()};
-    vp const o{a->bor(*b)};
-    vp const n_{a->band(*b)};
-    vp const x{a->bxor(*b)};
-    vp const c{a->bnot()};
-    // the assigning forms must agree with the binary ones and return their left operand
-    bool r1 = false, r2 = false, r3 = false;
-    vp o2{a->clone()}; o2->or_assign(*b, r1);
-    vp n2{a->clone()}; n2->and_assign(*b, r2);
-    vp x2{a->clone()}; x2->xor_assign(*b, r3);
-    bool const assign_ok = o2->eq(*o) && n2->eq(*n_) && x2->eq(*x) && r1 && r2 && r3;
-    bool const e = a->eq(*b);
-    bool const ne = a->ne(*b);
-    bool const sub = a->subset(*b);
-    // the same object on both sides
-    vp s1{a->clone()}; s1->or_assign(*s1, r1);
-    vp s2{a->clone()}; s2->and_assign(*s2, r2);
-    vp s3{a->clone()}; s3->xor_assign(*s3, r3);
-    vp const s4{a->bor(*a)}, s5{a->band(*a)}, s6{a->bxor(*a)};
-    bool const self_ok = s4->eq(*s1) && s5->eq(*s2) && s6->eq(*s3) && r1 && r2 && r3;
-    bool const self_eq = a->eq(*a) && !a->ne(*a);
-    bool const self_sub = a->subset(*a);
-    std::string r = "or=" + mw(*o) + " and=" + mw(*n_) + " xor=" + mw(*x) + " na=" + mw(*c) + " sub=" + b01(sub) +
-                    " eq=" + b01(e) + " ne=" + b01(ne) + " ha=" + std::to_string(hash(*a)) +
-                    " hx=" + std::to_string(hash(*x)) + " hc=" + std::to_string(hash(*c)) + " self=" + ws(*s1) + "/" +
-                    ws(*s2) + "/" + ws(*s3) + "/" + b01(self_eq) + b01(self_sub) + " canon=" +
-                    b01(assign_ok && self_ok && is_canon(*o) && is_canon(*n_) && is_canon(*x) && is_canon(*c));
-    // no observer or operator changed its operands
-    r += " pure=" + b01(a->words() == a0 && b->words() == b0 && a0 == from_mask(A)->words() && b0 == from_mask(B)->words());
-    return r;
+    std::string const rb{pair_b(*a, A, B)};
+    return rb + " " + pair_a(*a);
   }
 
   std::string pairs_digest(ull A) const
   {
+    vp const a{from_mask(A)};
+    std::string sa;
     std::uint64_t h = vh::fnv_init;
     for (ull B = 0; B < (1ULL << n); ++B)
-      h = vh::fnv(h, pair_line(A, B));
+    {
+      std::string const rb{pair_b(*a, A, B)};
+      // the operand-only part once per digest, but after the first pair so that a changed operand would show
+      if (B == 0)
+        sa = " " + pair_a(*a);
+      h = vh::fnv(h, rb + sa);
+    }
     return "D " + vh::hex64(h);
   }
 
